@@ -152,13 +152,16 @@ func (s *SchemaValidator) Validate(data interface{}) *Result {
 
 	if data == nil {
 		// early exit with minimal validation
-		result.Merge(s.validators[0].Validate(data)) // type validator
-		result.Merge(s.validators[6].Validate(data)) // common validator
-
+		typeValidator, commonValidator := s.validators[0], s.validators[6]
 		if s.Options.recycleValidators {
+			// a recycled validator redeems itself, even when it panics: drop our reference to it before calling it
 			s.validators[0] = nil
+		}
+		result.Merge(typeValidator.Validate(data))
+		if s.Options.recycleValidators {
 			s.validators[6] = nil
 		}
+		result.Merge(commonValidator.Validate(data))
 
 		return result
 	}
@@ -218,10 +221,12 @@ func (s *SchemaValidator) Validate(data interface{}) *Result {
 			continue
 		}
 
-		result.Merge(v.Validate(d))
 		if s.Options.recycleValidators {
-			s.validators[idx] = nil // prevents further (unsafe) usage
+			// prevents further (unsafe) usage. The validator redeems itself, even when it panics:
+			// the reference must be dropped before the call, or a recovered panic leaves us redeeming it a second time.
+			s.validators[idx] = nil
 		}
+		result.Merge(v.Validate(d))
 		result.Inc()
 	}
 	result.Inc()
